@@ -147,8 +147,13 @@ void DocumentBuilder::proc_begin(const char* name, const bool isTA, const string
             handle_error(TypeException{"Inconsistent parameters"});
         } else {
             for (size_t i = 0; i < params.get_size(); i++) {
+                // the template keeps the parameters of the declaration: the definition must not make one constant (or
+                // a reference) that was declared otherwise, also behind the name of a typedef
+                const type_t defined = params[i].get_type();
+                const type_t declared = currentTemplate->parameters[i].get_type();
                 if (params[i].get_name() != currentTemplate->parameters[i].get_name() ||
-                    params[i].get_type().get_kind() != currentTemplate->parameters[i].get_type().get_kind())
+                    defined.get_kind() != declared.get_kind() || defined.is_constant() != declared.is_constant() ||
+                    defined.is(REF) != declared.is(REF))
                     handle_error(TypeException{"Inconsistent parameters"});
             }
         }
